@@ -29,6 +29,14 @@ func (v *Verifier) contractFor(fn *ssa.Function) *Contract {
 	if fn == nil {
 		return nil
 	}
+	// an extern contract written for the callers of one package only:
+	//   //@ extern <full name>@<dir>
+	// (e.g. what proto.Unmarshal does to a *kvindex.Doc, stated where that type is in scope)
+	if v.curDir != "" {
+		if c, ok := v.DB.ByKey[fn.String()+"@"+v.curDir]; ok {
+			return c
+		}
+	}
 	pkg := fn.Pkg
 	if pkg == nil && fn.Parent() != nil {
 		pkg = fn.Parent().Pkg
@@ -390,6 +398,18 @@ func (x *Exec) inline(f *ssa.Function, binds []Val, args []Val, p token.Pos) Val
 	return Val{Tuple: outs, KnownLen: -1}
 }
 
+// ownCode: the code being executed is the function under contract itself or one of
+// its closures (as opposed to an inlined callee).
+func (x *Exec) ownCode() bool {
+	rf := x.root().fn
+	for f := x.fn; f != nil; f = f.Parent() {
+		if f == rf {
+			return true
+		}
+	}
+	return false
+}
+
 func (x *Exec) root() *Exec {
 	r := x
 	for r.parent != nil {
@@ -432,10 +452,11 @@ func (x *Exec) applyContract(c *Contract, name string, args []Val, names []strin
 		env.lets = append(append([]NamedExpr{}, c.Lets...), x.outerEnv.lets...)
 	}
 	x.callN[name]++
-	if x.parent == nil && x.c != nil && x.fn != nil && !x.discovering {
+	if rc := x.root().c; rc != nil && x.fn != nil && !x.discovering && x.ownCode() {
 		// the caller's own call-site conditions (ordering of effects: "by the time this
-		// call is made, ... already holds")
-		for _, cs := range x.c.CallSites {
+		// call is made, ... already holds"); they apply to the function under contract
+		// and to its own closures
+		for _, cs := range rc.CallSites {
 			if !strings.Contains(name, cs.Callee) {
 				continue
 			}
@@ -583,6 +604,11 @@ func (x *Exec) doBuiltin(f *ssa.Builtin, call *ssa.CallCommon, args []Val, p tok
 				t = fmt.Sprintf("(store %s (+ %s %d) (select (select %s (sref %s)) (ix (soff %s) %d)))", t, la, k, h, b, b, k)
 			}
 			x.smt.assume(implies(x.reach, "(= "+na+" "+t+")"))
+			for k := 0; k < args[1].KnownLen; k++ {
+				// the same fact through the index function contracts use (a ground
+				// witness for "exists j :: result[j] == appended element")
+				x.smt.assume(implies(x.reach, fmt.Sprintf("(= (select %s (ix 0 (+ %s %d))) (select (select %s (sref %s)) (ix (soff %s) %d)))", na, la, k, h, b, b, k)))
+			}
 		} else {
 			x.smt.assume(implies(x.reach, fmt.Sprintf("(forall ((i Int)) (! (and (=> (and (<= 0 i) (< i %s)) (= (select %s i) (select (select %s (sref %s)) (ix (soff %s) i)))) (=> (and (<= %s i) (< i (+ %s %s))) (= (select %s i) (select (select %s (sref %s)) (ix (soff %s) (- i %s)))))) :pattern ((select %s i))))",
 				la, na, h, a, a, la, la, lb, na, h, b, b, la, na)))
